@@ -38,7 +38,7 @@ ASSUMPTIONS = [
     "axis anchors use only what the parameter documentation states (direction of shear velocity; velocity +U "
     "along the horizontal at the centre of the upper cell edge; plate speed along the horizontal on the "
     "upper boundary of the corner flow)",
-    "a pathline that needs more than 20000 velocity evaluations (unchanged tree: <= ~220) is counted as not returned",
+    "a pathline that needs more than 5000 velocity evaluations (unchanged tree: <= ~220) is counted as not returned",
     "the reference integration never uses a velocity evaluated outside the callable's domain (it is repeated with "
     "bounded steps if a trial stage leaves the cell); if it cannot reach rtol 1e-10 within 30000 evaluations "
     "(unchanged tree: <= ~2000) the velocity callable is not smooth along the returned path and the trajectory "
@@ -57,7 +57,7 @@ AX = {"X": 0, "Y": 1, "Z": 2}  # the check's own axis map (independent of geomet
 PAIRS = ["XZ", "XY", "YX", "YZ", "ZX", "ZY"]  # default first (the frame the test-suite uses)
 DT = [("0", 0.0), ("1e-9", 1e-9), ("0.5", 0.5), ("1", 1.0), ("-1", -1.0), ("1e6", 1e6)]
 SI_SCALES = ["1", "1e-15", "1e6"]
-RHS_BUDGET = 20000
+RHS_BUDGET = 5000
 REF_BUDGETS = (30000, 30000, 150000)  # per pass of the reference integration (unchanged tree: <= ~2000)
 CM_YR = 1.0 / (100.0 * 365.0 * 86400.0)
 
@@ -225,7 +225,18 @@ def warmup():
     U.strain_increment(1.0, np.ascontiguousarray(alph.VG["gen0"]))
     U.strain_increment(np.float64(1.0), np.ascontiguousarray(alph.VG["gen0"]))
     u, L = V.cell_2d("X", "Z", 1.0, 2.0)
-    P.get_pathline(np.array([0.5, 0.0, -0.75]), u, L, np.array([-1.0, 0.0, -1.0]), np.array([1.0, 0.0, 1.0]), 0.5, regular_steps=5)
+    calls = [0]
+
+    def u_counted(t, x):  # compile-only run: must end even if the code under check never terminates
+        calls[0] += 1
+        if calls[0] > 2000:
+            raise _Budget()
+        return u(t, x)
+
+    try:
+        P.get_pathline(np.array([0.5, 0.0, -0.75]), u_counted, L, np.array([-1.0, 0.0, -1.0]), np.array([1.0, 0.0, 1.0]), 0.5, regular_steps=5)
+    except (_Budget, Exception):
+        pass  # verdicts are reached in run_path only
 
 
 # ------------------------------------------------------------------ helpers
